@@ -197,4 +197,6 @@ def run(ctx):
     # ---- C04.i the user's own post-operation callback runs with the recording detached: a fault of the recorder inside it (a discard
     # triggered by a call the callback makes) cannot hit the recording that is being finished and surface in the operation
     rm.extractor_runs_idle_clause(ctx, res, 'C04', 'C04.i')
+    from . import common as _r7
+    _r7.import_clauses(ctx, res, 'C07', ['C07.h'], 'C04', 'C04.k', 'R-DECISION', 'a recorded None (a function that returned None, a result entry) is found again: presence is decided by the key', floor=1)
     return res
